@@ -65,6 +65,9 @@ type genCase struct {
 	// VerifyAlg: alias -> signature algorithm OID with which the signature is ALSO verified (fact sigOkWith);
 	// used where the certificate's own algorithm fields are manipulated on purpose
 	VerifyAlg map[string]string `json:"verifyAlg"`
+	// VerifyKeyOf: alias -> alias of the entity whose certificate's public key is used for sigOkWith
+	// (default: the issuer named by the config, the entity itself for a root)
+	VerifyKeyOf map[string]string `json:"verifyKeyOf"`
 }
 
 type genFacts struct {
@@ -228,6 +231,9 @@ func genOne(cs *genCase) *genOut {
 				issuer := certs[ci.alias]
 				if ci.issuer != "" {
 					issuer = certs[ci.issuer]
+				}
+				if other, ok := cs.VerifyKeyOf[ci.alias]; ok {
+					issuer = certs[other]
 				}
 				if issuer != nil {
 					if ipk, err := issuer.PubKey(); err == nil {
